@@ -2,7 +2,7 @@
     twice (here and in the Rust harness).  [exec] runs a whole case -- build the computation,
     resolve the settings, run the runner machine under a schedule (or take the sequential
     branch), compute the terminal's value -- and returns everything the harness observes. *)
-From OrxPar Require Import Base Settings SettingsP Spec Pipeline Machine Kernels Program.
+From OrxPar Require Import Base Settings SettingsP Spec Pipeline Machine MachineIter Kernels Program.
 Set Implicit Arguments.
 Local Open Scope Z_scope.
 
@@ -98,8 +98,9 @@ Record case := mkCase {
   c_sched : list nat;                  (* schedule prefix; completed round-robin *)
   c_fuel : nat;                        (* round-robin rounds after the prefix *)
   c_panic : option (nat * Z);          (* the closure with this identity panics on this argument *)
-  c_macro : bool                       (* the schedule is a macro-schedule (deterministic scheduler of the
+  c_macro : bool;                      (* the schedule is a macro-schedule (deterministic scheduler of the
                                           harness): each pick runs a thread up to its next yield point *)
+  c_iter : bool                        (* the source is a by-value iterator: ticket / handle protocol *)
 }.
 
 Definition task_of (t : terminal) : ParTask :=
@@ -285,6 +286,100 @@ Qed.
 End Macro.
 Local Open Scope Z_scope.
 
+(** *** the same over a by-value iterator source *)
+Definition is_iyield (w : iworker) : bool :=
+  match iph w with IHolding _ (S _) | IDone | IDead => true | _ => false end.
+
+Local Open Scope nat_scope.
+Section IMacro.
+Variables (len : nat) (known ordered : bool) (stop panics : nat -> bool) (r : Runner).
+Notation imstep := (istep len known ordered stop panics (m_dospawn r) (m_nextc r)).
+
+Fixpoint iwmacro (fuel : nat) (s : isys) (i : nat) : isys :=
+  match fuel with
+  | O => s
+  | S f =>
+      let s' := imstep s (S i) in
+      match nth_error (iws s') i with
+      | Some w => if is_iyield w then s' else iwmacro f s' i
+      | None => s'
+      end
+  end.
+
+Definition ismacro (s : isys) : isys :=
+  let s1 := imstep s 0 in
+  match isph s1 with SpFinal => imstep s1 0 | _ => s1 end.
+
+(** a pull takes: ticket, acquire, one step per element, release *)
+Definition ifuel (s : isys) (i : nat) : nat :=
+  match nth_error (iws s) i with Some w => icsize w + 8 | None => 1 end.
+
+Definition imacro_step (s : isys) (t : nat) : isys :=
+  match t with 0 => ismacro s | S i => iwmacro (ifuel s i) s i end.
+Definition imacro_run (s : isys) (sched : list nat) : isys := fold_left imacro_step sched s.
+
+Fixpoint iwmacro_picks (fuel : nat) (s : isys) (i : nat) : list nat :=
+  match fuel with
+  | O => []
+  | S f =>
+      let s' := imstep s (S i) in
+      S i :: match nth_error (iws s') i with
+             | Some w => if is_iyield w then [] else iwmacro_picks f s' i
+             | None => []
+             end
+  end.
+Definition imacro_picks (s : isys) (t : nat) : list nat :=
+  match t with
+  | 0 => let s1 := imstep s 0 in match isph s1 with SpFinal => [0; 0] | _ => [0] end
+  | S i => iwmacro_picks (ifuel s i) s i
+  end.
+Fixpoint iexpand (s : isys) (sched : list nat) : list nat :=
+  match sched with
+  | [] => []
+  | t :: rest => imacro_picks s t ++ iexpand (imacro_step s t) rest
+  end.
+
+Lemma iwmacro_is_run fuel s i :
+  iwmacro fuel s i = irun len known ordered stop panics (m_dospawn r) (m_nextc r) s (iwmacro_picks fuel s i).
+Proof.
+  revert s; induction fuel as [|f IH]; intros s; [reflexivity|].
+  cbn [iwmacro iwmacro_picks irun fold_left].
+  destruct (nth_error (iws (imstep s (S i))) i) as [w|]; [|reflexivity].
+  destruct (is_iyield w); [reflexivity|]. apply IH.
+Qed.
+
+Theorem imacro_run_is_run s sched :
+  imacro_run s sched = irun len known ordered stop panics (m_dospawn r) (m_nextc r) s (iexpand s sched).
+Proof.
+  revert s; induction sched as [|t rest IH]; intros s; [reflexivity|].
+  cbn [imacro_run fold_left iexpand]. unfold irun. rewrite fold_left_app.
+  fold (irun len known ordered stop panics (m_dospawn r) (m_nextc r) s (imacro_picks s t)).
+  assert (E : imacro_step s t = irun len known ordered stop panics (m_dospawn r) (m_nextc r) s (imacro_picks s t)).
+  { destruct t as [|i]; cbn [imacro_step imacro_picks].
+    - unfold ismacro. destruct (isph (imstep s 0)); reflexivity.
+    - apply iwmacro_is_run. }
+  rewrite <- E. apply IH.
+Qed.
+
+Fixpoint icomplete (rounds : nat) (s : isys) : isys :=
+  match rounds with
+  | O => s
+  | S n =>
+      if iall_doneb s then s
+      else icomplete n (irun len known ordered stop panics (m_dospawn r) (m_nextc r) s (seq 0 (S (length (iws s)))))
+  end.
+
+End IMacro.
+Local Open Scope Z_scope.
+
+Definition iany_dead (s : isys) : bool :=
+  existsb (fun w => match iph w with IDead => true | _ => false end) (iws s).
+
+(** which handle protocol a terminal's kernel uses: count / reduce / collect_x go through
+    [into_con_iter_x] (first come), the index-reporting kernels keep the ticket order *)
+Definition ordered_of (t : terminal) : bool :=
+  match t with TCount | TForEach | TReduceT _ | TCollectX => false | _ => true end.
+
 (** does this call list contain the panicking call? *)
 Definition hits (pt : option (nat * Z)) (l : list (nat * Z)) : bool :=
   match pt with
@@ -328,13 +423,24 @@ Definition exec (c : case) : obs :=
         let known := match input_len with Some _ => true | None => false end in
         let consumed := fun i => if is_find t then calls (fst (upto_yield (pe i))) else calls (pe i) in
         let panics := fun i => hits pt (consumed i) in
-        let s := if c_macro c
-                 then macro_run n known stop panics r (init (m_c0 r)) (c_sched c)
-                 else complete n known stop panics r (c_fuel c)
-                        (run n known stop panics (m_dospawn r) (m_nextc r) (init (m_c0 r)) (c_sched c)) in
-        let wl := ws s in
-        let res := if all_doneb s && negb (any_dead s) then finish t pe n (kind_of p) wl else RPanic in
+        (* an eager site turns the source into a ConIterOfVec: indexed whatever the original source was *)
+        let iter_src := c_iter c && (ps_runs st =? 0)%nat in
+        let '(wl, done, dead) :=
+          if iter_src then
+            let ord := ordered_of t in
+            let si := if c_macro c
+                      then imacro_run n known ord stop panics r (iinit (m_c0 r)) (c_sched c)
+                      else icomplete n known ord stop panics r (c_fuel c)
+                             (irun n known ord stop panics (m_dospawn r) (m_nextc r) (iinit (m_c0 r)) (c_sched c)) in
+            (map wk (iws si), iall_doneb si, iany_dead si)
+          else
+            let s := if c_macro c
+                     then macro_run n known stop panics r (init (m_c0 r)) (c_sched c)
+                     else complete n known stop panics r (c_fuel c)
+                            (run n known stop panics (m_dospawn r) (m_nextc r) (init (m_c0 r)) (c_sched c)) in
+            (ws s, all_doneb s, any_dead s) in
+        let res := if done && negb dead then finish t pe n (kind_of p) wl else RPanic in
         let wlog := if is_find t then map (w_calls_find pe) wl else map (w_calls_full pe) wl in
         mkObs res params (kind_of (ps_par st0)) (ps_clog st0) (ps_consumed st0) (late :: wlog)
-              (length wl) (map csize wl) (map pulls wl) false (map seen wl) (all_doneb s)
+              (length wl) (map csize wl) (map pulls wl) false (map seen wl) done
     end.
